@@ -404,6 +404,15 @@ def attribute(ctx):
     ctx.violations.extend(extra)
 
 
+def crashes_as(ctx, prop, why):
+    """a hashing call that never returned (Fault event inside the library) while the same request returns elsewhere
+    in the run is also a violation of `prop`: the outcome depended on what differed between the two calls"""
+    for (p, what, payload) in list(ctx.violations):
+        if p == "C04" and what.startswith("Fault") and str(payload.get("cmd", "")).split(" ")[0] in \
+                ("crypt_rn", "crypt_r", "xcrypt_r", "crypt", "fcrypt", "xcrypt", "crypt_ra", "crypt_via_gensalt"):
+            ctx.violations.append((prop, "%s: %s" % (why, what), payload))
+
+
 def noise_cmds(rng, enabled):
     """calls that must not influence later results: other methods, failures, DES API, gensalt"""
     m = rng.choice([x for x in enabled if x != "bigcrypt"])
@@ -479,6 +488,7 @@ def c07(ctx):
     ev4, ran = recorded_repo_tests(ctx, KA_CHEAP if quick else KA_ALL)
     v3 = judge(ctx, ev4, "repotests", cfgev) if ev4 else None
     attribute(ctx)
+    crashes_as(ctx, "C07", "the call crashed on this object/history while the same request returns on others")
     cov = mc_coverage(ctx, st, tr, [v1, v2] + ([v3] if v3 else []), events + ev2 + ev3,
                       {"behaviours_replayed": len(behs), "requests_through_all_entry_points": nreq, "repository_tests_recorded": ran,
                        "predicates": ["Result (same request => same string, across entry points/history/alignment/fill)"]})
@@ -614,11 +624,21 @@ def c14(ctx):
         for cnt, pfx in ((0, gen.PREFIX[m]), (0, "$9$"), (99, gen.PREFIX[m])):
             cmds.append("gensalt_ra %s %d - 0" % (hx(pfx) if pfx else "=", cnt))
             cmds.append("gensalt_ra %s %d %s len" % (hx(pfx) if pfx else "=", cnt, bytes(rng.randrange(256) for _ in range(2)).hex()))
+    # crypt_gensalt_ra's protocol holds whatever its allocator requests answer: every request of the call fails in turn
+    ngf = 0
+    for m in cfgev["E"][: (4 if quick else 99)]:
+        for k in (1, 2, 3):
+            cmds += ["fault %d" % k, "gensalt_ra %s 0 - 0" % (hx(gen.PREFIX[m]) if gen.PREFIX[m] else "="),
+                     "fault %d" % k, "gensalt_ra %s 0 %s len" % (hx(gen.PREFIX[m]) if gen.PREFIX[m] else "=", bytes(rng.randrange(256) for _ in range(32)).hex())]
+            ngf += 2
     ev2 = ctx.run_xcv(cmds)
     v2 = judge(ctx, ev2, "seq", cfgev)
+    for (p_, what, payload) in list(ctx.violations):
+        if p_ == "C15" and what.startswith("GensaltRA"):
+            ctx.violations.append(("C14", what + " (allocator request failed)", payload))
     attribute(ctx)
     cov = mc_coverage(ctx, st, tr, [v1, v2], events + ev2,
-                      {"behaviours_replayed": len(behs), "systematic_sequences": nseq,
+                      {"behaviours_replayed": len(behs), "systematic_sequences": nseq, "gensalt_ra_calls_with_failing_allocator": ngf,
                        "predicates": ["Handle", "Grow", "GensaltRA", "OneOwner/NoDangling/SizeHonest on the model"]})
     return "model_checking", cov, ASSUME_COMMON + ["caller contract: a recorded size never exceeds the real allocation"]
 
@@ -1246,6 +1266,18 @@ def c06(ctx):
     return "model_checking", cov, ASSUME_COMMON
 
 
+def cost_respellings(m, s):
+    """other spellings of the decimal cost field that denote a different (out-of-range) cost: a parser that wraps
+    or truncates hashes them like the base setting, i.e. two different cost fields, one hash part"""
+    out = []
+    for k in (2 ** 32, 2 ** 33, 2 ** 64):
+        if m in ("sha512crypt", "sha256crypt") and "rounds=1000$" in s:
+            out.append(s.replace("rounds=1000$", "rounds=%d$" % (1000 + k)))
+        if m == "sunmd5" and "rounds=1$" in s:
+            out.append(s.replace("rounds=1$", "rounds=%d$" % (1 + k)))
+    return out
+
+
 def cost_plus_one(m, s):
     """the same setting with its cost changed by one step inside the documented range (or None)"""
     if m in ("sha512crypt", "sha256crypt") and "rounds=1000$" in s:
@@ -1276,60 +1308,72 @@ def c03(ctx):
     meta = []          # for each crypt command: index (among crypt commands) of its base, or -1
     nbase = 0
     for m in E:
-        s0 = cheap_setting(m, rng)
+        s_main = cheap_setting(m, rng)
         if m == "bsdicrypt":
-            s0 = "_J9.." + gen.salt(rng, 4)
-        lens = (9, 32, 64, 73, 130, 511) if quick else (1, 7, 8, 9, 16, 31, 32, 33, 55, 56, 63, 64, 65, 72, 73, 127, 128, 129, 200, 256, 257, 511)
-        if m in ("scrypt", "yescrypt", "gost_yescrypt", "bcrypt", "bcrypt_a", "bcrypt_x", "bcrypt_y") and quick:
-            lens = (9, 73, 511)
-        for n in lens:
-            P = bytearray(gen.rand_phrase(rng, n, eightbit=(m not in ("bcrypt_x", "bcrypt_a"))))
-            base_i = len(meta)
-            cmds.append("crypt_rn 0 %s %s 32768" % (hx(bytes(P)), hx(s0)))
-            meta.append(-1)
-            nbase += 1
-            pert = []
-            edges = {0, 6, 7, 8, 9, 15, 16, 63, 64, 70, 71, 72, 73, 126, 127, 128, 129, n - 2, n - 1}
-            for pos in range(n):
-                bits = range(8) if pos in edges and m not in ("scrypt",) else ([rng.randrange(8)] if quick else rng.sample(range(8), 2))
-                if quick and pos not in edges and n > 100 and pos % 3:
-                    continue
-                for b in bits:
-                    Q = bytearray(P)
-                    Q[pos] ^= 1 << b
-                    if Q[pos] == 0:
+            s_main = "_J9.." + gen.salt(rng, 4)
+        # degenerate spellings of the cost field (zero / empty / implicit default): the edge of every rounds loop
+        degenerate = {"sha1crypt": ["$sha1$0$" + gen.salt(rng, 8), "$sha1$$" + gen.salt(rng, 8)],
+                      "sha256crypt": ["$5$" + gen.salt(rng, 16)], "sha512crypt": ["$6$" + gen.salt(rng, 16)],
+                      "md5crypt": ["$1$"], "bsdicrypt": ["_/..." + gen.salt(rng, 4)]}.get(m, [])
+        for s0 in [s_main] + degenerate:
+            lens = (9, 32, 64, 73, 130, 511) if quick else (1, 7, 8, 9, 16, 31, 32, 33, 55, 56, 63, 64, 65, 72, 73, 127, 128, 129, 200, 256, 257, 511)
+            if m in ("scrypt", "yescrypt", "gost_yescrypt", "bcrypt", "bcrypt_a", "bcrypt_x", "bcrypt_y") and quick:
+                lens = (9, 73, 511)
+            if s0 is not s_main:
+                lens = (9, 73) if quick else (8, 9, 64, 73, 200)
+            for n in lens:
+                P = bytearray(gen.rand_phrase(rng, n, eightbit=(m not in ("bcrypt_x", "bcrypt_a"))))
+                base_i = len(meta)
+                cmds.append("crypt_rn 0 %s %s 32768" % (hx(bytes(P)), hx(s0)))
+                meta.append(-1)
+                nbase += 1
+                pert = []
+                edges = {0, 6, 7, 8, 9, 15, 16, 63, 64, 70, 71, 72, 73, 126, 127, 128, 129, n - 2, n - 1}
+                for pos in range(n):
+                    bits = range(8) if pos in edges and m not in ("scrypt",) else ([rng.randrange(8)] if quick else rng.sample(range(8), 2))
+                    if quick and pos not in edges and n > 100 and pos % 3:
                         continue
-                    pert.append(bytes(Q))
-            for cut in sorted({1, 7, 8, 9, 71, 72, 73, 127, 128, n - 1} & set(range(0, n))):
-                pert.append(bytes(P[:cut]))                               # truncations
-            for ext in (1, 2):
-                if n + ext <= 511:
-                    pert.append(bytes(P) + gen.rand_phrase(rng, ext))     # extensions
-            for Q in pert:
-                cmds.append("crypt_rn 0 %s %s 32768" % (hx(Q), hx(s0)))
-                meta.append(base_i)
-        # every single-character change of the setting (salt and cost), same phrase
-        P = gen.rand_phrase(rng, 12, eightbit=False)
-        base_i = len(meta)
-        cmds.append("crypt_rn 0 %s %s 32768" % (hx(P), hx(s0)))
-        meta.append(-1)
-        span = cost_span(m, s0.encode("latin-1"))
-        for pos in range(len(s0)):
-            for rep in range(2):
-                c = rng.choice(gen.B64)
-                if c == s0[pos]:
-                    continue
-                if pos in span and not (m == "bsdicrypt" and pos in (1, 2, 4)):
-                    continue
-                t = s0[:pos] + c + s0[pos + 1:]
-                if m == "bsdicrypt" and pos == 4:
-                    t = s0[:pos] + "/" + s0[pos + 1:]          # count + 2^18
+                    for b in bits:
+                        Q = bytearray(P)
+                        Q[pos] ^= 1 << b
+                        if Q[pos] == 0:
+                            continue
+                        pert.append(bytes(Q))
+                for cut in sorted({1, 7, 8, 9, 71, 72, 73, 127, 128, n - 1} & set(range(0, n))):
+                    pert.append(bytes(P[:cut]))                               # truncations
+                for ext in (1, 2):
+                    if n + ext <= 511:
+                        pert.append(bytes(P) + gen.rand_phrase(rng, ext))     # extensions
+                for Q in pert:
+                    cmds.append("crypt_rn 0 %s %s 32768" % (hx(Q), hx(s0)))
+                    meta.append(base_i)
+            # every single-character change of the setting (salt and cost), same phrase
+            P = gen.rand_phrase(rng, 12, eightbit=False)
+            base_i = len(meta)
+            cmds.append("crypt_rn 0 %s %s 32768" % (hx(P), hx(s0)))
+            meta.append(-1)
+            span = cost_span(m, s0.encode("latin-1"))
+            for pos in range(len(s0)):
+                for rep in range(3):
+                    # two members of the alphabet, one neighbour of it (refused by the specification; a decoder
+                    # that aliases it to a member reproduces another setting's hash: judged by FalseAccept / C05)
+                    c = rng.choice(gen.B64) if rep < 2 else rng.choice("[]^_`@{}-+=~,#%&()<>?\"'|")
+                    if c == s0[pos]:
+                        continue
+                    if pos in span and not (m == "bsdicrypt" and pos in (1, 2, 4)):
+                        continue
+                    t = s0[:pos] + c + s0[pos + 1:]
+                    if m == "bsdicrypt" and pos == 4:
+                        t = s0[:pos] + "/" + s0[pos + 1:]          # count + 2^18
+                    cmds.append("crypt_rn 0 %s %s 32768" % (hx(P), hx(t)))
+                    meta.append(base_i)
+            t = cost_plus_one(m, s0)
+            if t and t != s0:
                 cmds.append("crypt_rn 0 %s %s 32768" % (hx(P), hx(t)))
                 meta.append(base_i)
-        t = cost_plus_one(m, s0)
-        if t and t != s0:
-            cmds.append("crypt_rn 0 %s %s 32768" % (hx(P), hx(t)))
-            meta.append(base_i)
+            for t in cost_respellings(m, s0):
+                cmds.append("crypt_rn 0 %s %s 32768" % (hx(P), hx(t)))
+                meta.append(base_i)
     ev1 = ctx.run_xcv(cmds, timeout=1800)
     calls = [(i, e) for i, e in enumerate(ev1) if e.get("e") == "crypt_rn"]
     if len(calls) != len(meta):
@@ -1436,6 +1480,7 @@ def c02_corpus(rng, E, quick, fixed):
                     "$md5,rounds=300$" + gen.salt(rng, 1) + "$$", "$md5$"]
         elif m == "sha1crypt":
             sets = ["$sha1$%d$%s" % (it, gen.salt(rng, n)) for it, n in ((1, 8), (2, 1), (7, 64), (24, 16), (100, 12))]
+            sets += ["$sha1$0$" + gen.salt(rng, 8), "$sha1$$" + gen.salt(rng, 8), "$sha1$00$" + gen.salt(rng, 5)]   # zero / empty iteration field
         elif m == "nt":
             sets = ["$3$"]
         elif m in ("bcrypt", "bcrypt_a", "bcrypt_x", "bcrypt_y"):
@@ -1461,6 +1506,9 @@ def c02_corpus(rng, E, quick, fixed):
                 if s.startswith("$y$") or ("gost_yescrypt" in E and s.startswith("$gy$")) or ("scrypt" in E and s.startswith("$7$")):
                     out.append((gen.rand_phrase(rng, rng.choice((1, 9, 40))), s))
             for s in gen.yescrypt_malformed_params(rng, full=False)[:: (7 if quick else 1)]:
+                out.append((b"pw", s))
+        for s in gen.numeric_wrap_settings():
+            if gen.PREFIX[m] and s.startswith(gen.PREFIX[m]):
                 out.append((b"pw", s))
         ls = lens if (not quick or cheap) else [x for i, x in enumerate(lens) if i % 2 == 0 or x in (8, 9, 64, 72, 73, 128)]
         if m in ("scrypt",):
